@@ -84,6 +84,8 @@ func c01FlowVariants(desc string) []string {
 	return out
 }
 
+var c01Causes = []int{0, 2, 64, 65, 66, 67, 68, 69, 70, 71, 72, 73, 74, 75, 76, 77, 78, 79, 80, 255}
+
 // c01Mutations enumerates every single mutation of the message.
 func c01Mutations(m *vMsg) []c01Mut {
 	var out []c01Mut
@@ -104,6 +106,12 @@ func c01Mutations(m *vMsg) []c01Mut {
 				// length running past the end
 				for _, k := range []string{"fqdn", "fqdn-bad-utf8", "ipv6", "type7", "fqdn-overrun", "fqdn-empty"} {
 					out = append(out, c01Mut{Path: p, Op: "nodeid", Arg: k})
+				}
+			}
+			if n.T == ie.Cause {
+				// every cause value TS 29.244 defines (and the ends of the octet): a response may carry any of them
+				for _, v := range c01Causes {
+					out = append(out, c01Mut{Path: p, Op: "cause", Arg: fmt.Sprint(v)})
 				}
 			}
 			if n.T == ie.SDFFilter || n.T == ie.PFDContents {
@@ -188,6 +196,10 @@ func c01Apply(base *vMsg, mu c01Mut) []byte {
 		} else {
 			n.P = append(n.P, 0x00)
 		}
+	case "cause":
+		var v int
+		fmt.Sscan(mu.Arg, &v)
+		n.P = []byte{byte(v)}
 	case "retype":
 		if mu.Arg == "sibling" {
 			j := (i + 1) % len(*list)
@@ -454,7 +466,7 @@ func TestVerifC01(t *testing.T) {
 	res := vNewResult()
 	defer res.write(t)
 	res.Rule = "states = BFS (depth 3 quick / 4 thorough) over association, PFD, establishment (basic / CHOOSE+UE-IP), deletion, release on 2 associations, with UE-IP allocation on and off; " +
-		"in every distinct state every single IE-level mutation (drop, duplicate, empty, truncate, pad with 17 x 0xFF, pad with one NUL, retype x6, IPv6-only, flow-description truncations and malformed texts, " +
+		"in every distinct state every single IE-level mutation (drop, duplicate, empty, truncate, pad with 17 x 0xFF, pad with one NUL, every defined cause value in a Cause IE, retype x6, IPv6-only, flow-description truncations and malformed texts, " +
 		"reversed order, header S flag / length) at every IE position of every nesting level of one rich message per dispatched type (+ response and unsupported types) is injected " +
 		"through the real HandlePFCPMsg (thorough: all pairs of top-level mutations); byte level in a state with a live session: every truncation, 12 byte values per position, all " +
 		"strings of length <= 2. distinct_nontrivial = distinct (state, message, mutation) and byte cases executed"
